@@ -87,6 +87,13 @@ class Roles:
             for e in t.entries:
                 self.op_fns.setdefault(e.fn_key, {"role": t.role, "keys": []})["keys"].append(e.key)
 
+    def inside(self):
+        """Bodies that run as part of an evaluation (reachable from the entry point, through the tables)."""
+        if getattr(self, "_inside", None) is None:
+            roots = [self.entry.key] + list(self.op_fns)
+            self._inside = self.facts.reach(roots)
+        return self._inside
+
     def fn_of(self, opname):
         e = T.entry(self.tables, opname)
         if e is None:
